@@ -57,7 +57,25 @@ def c18_extra(tier, seed, cov, notes, ctx):
     return viol
 
 
+def lay_prop(pid, extra_lib=(), preds=False, cex=True):
+    d = {
+        'lib': LIB + ['Check/Lay'] + list(extra_lib) + ['Check/%s' % pid],
+        'syn': ['Props/%s' % pid], 'needs_syn': ['Syn/Lay', 'Check/%s' % pid],
+        'ext': ['Props/%s_ext' % pid], 'needs_ext': ['ExtI/Lay', 'Check/%s' % pid],
+        'corr': ['Corr/Lay'], 'needs_corr': ['Syn/Lay', 'ExtI/Lay'],
+        'replay_kind': 'layout',
+    }
+    if cex:
+        d['cex_ext'] = 'Cex/%s_ext' % pid
+        d['cex_syn'] = 'Cex/%s_syn' % pid
+    return d
+
+
 PROPS = {
+    'C17': lay_prop('C17'),
+    'C16': lay_prop('C16'),
+    'C15': lay_prop('C15', ['Check/C16']),
+    'C11': lay_prop('C11'),
     'C18': {
         'lib': LIB + ['Spec/Compose'],
         'syn': ['Props/C18'], 'needs_syn': ['Gen/Lib', 'Spec/Compose'],
